@@ -133,7 +133,7 @@ func genC18(watch bool) func(t *rapid.T) C18Case {
 			c.Ext = rapid.SampledFrom(append([]string{".conf", "", ".txt"}, extsFor[c.Format]...)).Draw(t, "ext")
 		}
 		if c.Type == "plain" || c.Type == "embed" {
-			c.Enc = rapid.SampledFrom([]string{"", "snake", "kebab"}).Draw(t, "enc")
+			c.Enc = rapid.SampledFrom([]string{"", "snake", "kebab", "upper", ""}).Draw(t, "enc")
 		}
 		c.Flatten = rapid.Bool().Draw(t, "flatten")
 		c.NoSetList = rapid.IntRange(0, 2).Draw(t, "no_set_list") == 2
@@ -476,7 +476,7 @@ func validateCase(c C18Case, td *typeDef) string {
 	if c.FlagMode != "explicit" && c.FlagMode != "cmdline" {
 		return "flag mode"
 	}
-	if c.Enc != "" && ((c.Type != "plain" && c.Type != "embed") || (c.Enc != "snake" && c.Enc != "kebab")) {
+	if c.Enc != "" && ((c.Type != "plain" && c.Type != "embed") || (c.Enc != "snake" && c.Enc != "kebab" && c.Enc != "upper")) {
 		return "enc"
 	}
 	for i, lc := range c.Leaves {
@@ -887,6 +887,8 @@ func execCase[T any, TP ez.ConfigWithConfigPath[T]](c C18Case, td *typeDef, bubb
 		params.FileFieldNameEncoder = caseconversion.EncodeLowerSnakeCase
 	case "kebab":
 		params.FileFieldNameEncoder = caseconversion.EncodeKebabCase
+	case "upper":
+		params.FileFieldNameEncoder = caseconversion.EncodeUpperSnakeCase
 	}
 	if c.FlagMode == "explicit" {
 		fs, err := dflag.NewSetWithArgs(dflag.DefaultFlagNameConfig(), defaults, argv)
@@ -962,9 +964,9 @@ func execCase[T any, TP ez.ConfigWithConfigPath[T]](c C18Case, td *typeDef, bubb
 
 	labels := []string{"type=" + c.Type, "format=" + c.Format, "entry=" + c.Entry, "flags=" + c.FlagMode,
 		fmt.Sprintf("watch=%v", c.Watch), fmt.Sprintf("callbacks=%v", c.Callbacks),
-		fmt.Sprintf("flatten-anonymous=%v", c.Flatten), fmt.Sprintf("disable-auto-set-to-slice=%v", c.NoSetList), "file-key-encoder=" + map[string]string{"": "nil", "snake": "snake", "kebab": "kebab"}[c.Enc]}
+		fmt.Sprintf("flatten-anonymous=%v", c.Flatten), fmt.Sprintf("disable-auto-set-to-slice=%v", c.NoSetList), "file-key-encoder=" + map[string]string{"": "nil", "snake": "snake", "kebab": "kebab", "upper": "UPPER_SNAKE"}[c.Enc]}
 	if c.Type == "embed" {
-		labels = append(labels, fmt.Sprintf("embed:%s/%s/flatten=%v/enc=%s", c.Entry, c.Format, c.Flatten, map[string]string{"": "nil", "snake": "snake", "kebab": "kebab"}[c.Enc]))
+		labels = append(labels, fmt.Sprintf("embed:%s/%s/flatten=%v/enc=%s", c.Entry, c.Format, c.Flatten, map[string]string{"": "nil", "snake": "snake", "kebab": "kebab", "upper": "UPPER_SNAKE"}[c.Enc]))
 	}
 	if noPath {
 		labels = append(labels, "file=nopath")
@@ -1017,6 +1019,12 @@ func execCase[T any, TP ez.ConfigWithConfigPath[T]](c C18Case, td *typeDef, bubb
 		}
 		if lc.EqDef == bFlag {
 			labels = append(labels, fmt.Sprintf("layer-equals-default:flag:argv-form=%d", lc.Form&3))
+		}
+	}
+	encName := map[string]string{"": "nil", "snake": "snake", "kebab": "kebab", "upper": "UPPER_SNAKE"}[c.Enc]
+	for i := range td.leaves {
+		if lc := c.Leaves[i]; td.leaves[i].hasAlias() && !noPath && c.FileState == "valid" && lc.Layers&bFile != 0 && lc.Alias&bFile != 0 {
+			labels = append(labels, "file-names-leaf-by-alias:encoder="+encName)
 		}
 	}
 	if aliasUsed {
@@ -1360,6 +1368,9 @@ func execCase[T any, TP ez.ConfigWithConfigPath[T]](c C18Case, td *typeDef, bubb
 			}
 			was, _, _, _ := fileLeaf(i, r-1)
 			is, _, _, _ := fileLeaf(i, r)
+			if _, _, _, al := fileLeaf(i, r); is && al && td.leaves[i].hasAlias() {
+				labels = append(labels, "file-names-leaf-by-alias:encoder="+encName)
+			}
 			if was && !is {
 				// the leaf must fall back to env / flag / default
 				labels = append(labels, "rewrite-omits-earlier-key")
@@ -1905,7 +1916,8 @@ const c18Rule = "static ez config types (flat with a bool; nested with aliases a
 	"Per leaf rapid draws a subset of {default, file, env, flag}; the value of a layer is derived from (leaf seed, layer) so the four are pairwise different " +
 	"(one leaf in five instead lets its top layer - flag, env or file - repeat exactly the value the defaults struct holds, generated or zero, while a lower non-default layer differs: an explicit value equal to the default must still win; one bool leaf, whose flag is also spelled bare -n / -n=false). " +
 	"Format json/yaml/toml/cue through the named per-format entry points, FileExtensionDecoderConfigEnvFlag with every extension it knows (.json .yaml .yml .toml .cue, also upper case), ConfigFileEnvFlag with a factory and ConfigFileEnvFlagDecoderFactoryParams, " +
-	"crossed with Params.FlattenAnonymousFields on/off, FileFieldNameEncoder nil / snake / kebab (untagged and embedded types) and DisableAutoSetToSlice on/off (sets then written as maps); the file layout of embedded leaves per format and option is written down in the harness as read off the unmodified tree " +
+	"leaves with a dialsalias (tagged: conf_file/old_conf, port/listen_port; untagged, multi-word, Go camel case as ez's default DialsTagNameDecoder expects: MaxIdle/IdleLimit, DB.Retries/RetryBudget) are named by their primary key or by their alias - never both - independently in each file version, in the environment and on the command line; in the file the alias is spelled in the file's key convention as read off the unmodified tree (no encoder: the alias text as written; snake idle_limit, kebab idle-limit, UPPER_SNAKE IDLE_LIMIT) and counts as set by the file layer whichever name was used; " +
+	"crossed with Params.FlattenAnonymousFields on/off, FileFieldNameEncoder nil / snake / kebab / UPPER_SNAKE (untagged and embedded types) and DisableAutoSetToSlice on/off (sets then written as maps); the file layout of embedded leaves per format and option is written down in the harness as read off the unmodified tree " +
 	"(JSON and Cue promote them, yaml.v2 nests them under the lower-cased type name unless FlattenAnonymousFields promotes them, go-toml nests them under the type name, with an encoder every format nests them under the encoded type name except YAML with FlattenAnonymousFields); the path comes from default/env/flag (lower layers and the file itself name decoy files that exist with other content); " +
 	"file valid / missing / malformed / unknown extension / no path at all; flags through Params.FlagSource on a fresh FlagSet (3 in 4) or a fresh flag.CommandLine + os.Args (restored). " +
 	"Oracle by construction: first View() = flag > env > file > default per leaf; the decoder factory saw the path of defaults+env+flags; every Verify receiver deep-equals a full stack (never the file-less intermediate, none at all when the file cannot be read); " +
